@@ -7,6 +7,8 @@ Theorems: coq/Properties/C10.v.  Ties (correspondence by execution):
   symbols   : str(Z) through both element enums  vs  Model.atomic_value/element_name
   card      : tokens of an M card -> compositionConversionMCNPToT4 +
               extract_isotopes_fractions  vs  Model.convert_card
+  partial   : runs failing in the composition path: what is left at the end of
+              the file  vs  Model.composition_written
   text      : whole conversions: the COMPOSITION block of the written file,
               byte for byte, vs Model.composition_lines run on the data-card
               contents and the final cell dictionary captured from the run
@@ -33,6 +35,7 @@ THEOREMS = [
     'C10_one_block_per_material_density_linked',
     'C10_fraction_spelling_copied_linked',
     'C10_write_compositions_agree_linked', 'C10_atom_density_block_linked',
+    'C10_conversion_succeeds',
     'C10_element_table', 'C10_atomic_number_range',
     'C10_zaid_split', 'C10_card_converted', 'C10_mixed_signs_rejected',
     'C10_repeated_nuclide', 'C10_unused_card_still_checked',
@@ -63,6 +66,8 @@ TRUSTED = [
     'from the run, not modelled here (C09, C12, C15); '
     'C10_write_compositions_agree_linked proves that C09\'s model of '
     'writeT4Composition over ITS cell dictionary gives the same text',
+    'the text of the warning (mass fractions at an atom density) is not '
+    'modelled',
     'harness: generators, line reader of the COMPOSITION block, PEG shim '
     'replacing TatSu',
 ]
@@ -1155,8 +1160,19 @@ def conv_error_class(conv):
     return EXC.get(conv.exc, conv.exc)
 
 
+def partial_lines(conv):
+    '''Lines of the partial file from the newline in front of the last
+    COMPOSITION keyword on (a run that failed in the composition path).'''
+    text = conv.text or ''
+    idx = text.rfind('\nCOMPOSITION\n')
+    if idx < 0 or not text.endswith('\n'):
+        return ['<no COMPOSITION line>']
+    return text[idx:][:-1].split('\n')
+
+
 def run_decks(res, rng, n_decks):
     text_cases, text_meta = [], []
+    partial_cases, partial_meta = [], []
     n_known = {}
     for text in CORNER_DECKS:
         conv, cap = convert_capture(text)
@@ -1176,6 +1192,10 @@ def run_decks(res, rng, n_decks):
         if case is not None:
             text_cases.append(case)
             text_meta.append((text, expected))
+            if not conv.ok:
+                partial_cases.append(cpair(case, clist(
+                    cstr(l) for l in partial_lines(conv))))
+                partial_meta.append((text, partial_lines(conv)))
     for i in range(n_decks):
         deck = gen_deck(rng)
         broken = None
@@ -1230,6 +1250,10 @@ def run_decks(res, rng, n_decks):
             continue
         text_cases.append(case)
         text_meta.append((text, expected))
+        if not conv.ok and all(ascii_ok(l) for l in partial_lines(conv)):
+            partial_cases.append(cpair(case, clist(
+                cstr(l) for l in partial_lines(conv))))
+            partial_meta.append((text, partial_lines(conv)))
     if text_meta:
         res.sample({'deck': text_meta[0][0],
                     'composition_lines': text_meta[0][1][1]})
@@ -1248,6 +1272,25 @@ def run_decks(res, rng, n_decks):
                       {'input': {'deck': text}, 'observed': expected,
                        'model': model,
                        'theorem_or_correspondence': 'tie:text'},
+                      found_input=False)
+    run_partial(res, partial_cases, partial_meta)
+
+
+def run_partial(res, partial_cases, partial_meta):
+    bad, errs = common.run_case_files('c10_partial', HEADER,
+                                      'text_case * list string',
+                                      'check_partial', partial_cases, chunk=40)
+    res.obligation(f'tie:partial ({len(partial_cases)} runs that fail in the '
+                   'composition path: what is left at the end of the file = '
+                   'model composition_written)', not bad and not errs,
+                   f'{len(bad)} disagreements {errs[:1]}')
+    for idx in bad[:5]:
+        text, lines = partial_meta[idx]
+        res.violation('correspondence',
+                      f'partial file ends with {lines[:6]} but the model '
+                      'leaves the opening COMPOSITION line only',
+                      {'input': {'deck': text}, 'observed': lines,
+                       'theorem_or_correspondence': 'tie:partial'},
                       found_input=False)
 
 
